@@ -13,6 +13,14 @@ A = ("a", "leaf", 7, (), None)
 WITNESS = ("root", "list", 0, (A, ("P", "list", 1, (A,), {"prov": False}), ("Q", "list", 2, (A,), None)), None)
 
 
+# a twin that becomes ready between "done" and "resolved" of the first call (first call still has a running child);
+# run with cache=False (cache_scope CSE), where only _pending_jobs protects the call
+C = ("C", "leaf", 5, (), None)
+P = ("P", "list", 0, (C,), None)
+WITNESS2 = ("root", "list", 0, (P, ("W", "list", 1, (P,), None)), None)
+PRIORITY2 = ["root", "P", "W", "C"]
+
+
 def witness_chooser(held):
     def rank(job):
         name = job.args[0][0][0]
@@ -91,7 +99,10 @@ class Check(PropertyCheck):
         out = sched.run_program(lambda: vm.call(WITNESS), {"r0": 1}, random.Random(self.seed),
                                 complete_prob=0.0, chooser=witness_chooser)
         out["spec"], out["limits"] = WITNESS, {"r0": 1}
-        runs = [("witness", out)] + [("random", o) for o in getattr(self, "runs", [])]
+        out2 = sched.run_program(lambda: vm.call(WITNESS2), {"r0": 1}, random.Random(self.seed), complete_prob=0.0,
+                                 priority=PRIORITY2, cache=False)
+        out2["spec"], out2["limits"] = WITNESS2, {"r0": 1}
+        runs = [("witness", out), ("witness2", out2)] + [("random", o) for o in getattr(self, "runs", [])]
         nb = 0
         for kind, o in runs:
             self.evaluations += 1
